@@ -131,8 +131,20 @@ theorem methodLoop_stop' {rest : List Tok} (h : dotStop rest) (l : PExpr) :
 
 /-! ## The per-level statements -/
 
-/-- Number of tokens of the minimal rendering. -/
-abbrev ntok (e : PExpr) : Nat := (renderToks e).length
+/-- Fuel measure of a tree: the number of tokens of the minimal rendering, a signed integer
+literal (two tokens, `-` and the digits) counted as ONE, a set as its number of elements
+plus two.  `esize_le_length`: never more than the number of rendered tokens. -/
+def esize : PExpr → Nat
+  | .term (.set elts) => elts.length + 2
+  | .term _ => 1
+  | .paren e => esize e + 2
+  | .neg e => esize e + 1
+  | .bin _ l r => esize l + 1 + esize r
+  | .method _ recv arg => esize recv + esize arg + 4
+  | .length recv => esize recv + 4
+
+/-- The fuel measure used by the per-level statements. -/
+abbrev ntok (e : PExpr) : Nat := esize e
 
 def S7 (e : PExpr) : Prop :=
   ∀ rest f, f ≥ 16 * ntok e → parseAtom f (renderToks e ++ rest) = some (e, rest)
@@ -232,8 +244,7 @@ theorem S0_of_S1 {e : PExpr} (h : S1 e) : S0 e := by
 
 theorem S0_or {a b : PExpr} (ha : S0 a) (hb : S1 b) : S0 (.bin .or a b) := by
   intro rest res m hF hloop f hf
-  have hn : ntok (.bin .or a b) = ntok a + 1 + ntok b := by
-    simp [ntok, renderToks, binTok]; omega
+  have hn : ntok (.bin .or a b) = ntok a + 1 + ntok b := rfl
   have ht : renderToks (.bin .or a b) ++ rest = renderToks a ++ (.orOp :: (renderToks b ++ rest)) := by
     simp [renderToks, binTok]
   rw [ht]
@@ -246,8 +257,7 @@ theorem S0_or {a b : PExpr} (ha : S0 a) (hb : S1 b) : S0 (.bin .or a b) := by
 
 theorem S1_and {a b : PExpr} (ha : S1 a) (hb : S2 b) : S1 (.bin .and a b) := by
   intro rest res m hF hloop f hf
-  have hn : ntok (.bin .and a b) = ntok a + 1 + ntok b := by
-    simp [ntok, renderToks, binTok]; omega
+  have hn : ntok (.bin .and a b) = ntok a + 1 + ntok b := rfl
   have ht : renderToks (.bin .and a b) ++ rest = renderToks a ++ (.andOp :: (renderToks b ++ rest)) := by
     simp [renderToks, binTok]
   rw [ht]
@@ -262,8 +272,7 @@ theorem S2_cmp' {a b : PExpr} {op : BinOp} {t : Tok} (hbt : binTok op = some t)
     (hct : cmpOfTok t = some op) (hFt : ∀ r, Follow 3 (t :: r)) (ha : S3 a) (hb : S3 b)
     (rest : List Tok) (hF : Follow 3 rest) (f : Nat) (hf : f ≥ 16 * ntok (.bin op a b) + 10) :
     parseCmp f (renderToks (.bin op a b) ++ rest) = some (.bin op a b, rest) := by
-  have hn : ntok (.bin op a b) = ntok a + 1 + ntok b := by
-    simp [ntok, renderToks, hbt]; omega
+  have hn : ntok (.bin op a b) = ntok a + 1 + ntok b := rfl
   have ht : renderToks (.bin op a b) ++ rest = renderToks a ++ (t :: (renderToks b ++ rest)) := by
     simp [renderToks, hbt]
   rw [ht]
@@ -281,8 +290,7 @@ theorem S3_add {a b : PExpr} {op : BinOp} {t : Tok} (hbt : binTok op = some t)
     (hct : addOfTok t = some op) (hFt : ∀ r, Follow 4 (t :: r)) (ha : S3 a) (hb : S4 b) :
     S3 (.bin op a b) := by
   intro rest res m hF hloop f hf
-  have hn : ntok (.bin op a b) = ntok a + 1 + ntok b := by
-    simp [ntok, renderToks, hbt]; omega
+  have hn : ntok (.bin op a b) = ntok a + 1 + ntok b := rfl
   have ht : renderToks (.bin op a b) ++ rest = renderToks a ++ (t :: (renderToks b ++ rest)) := by
     simp [renderToks, hbt]
   rw [ht]
@@ -298,8 +306,7 @@ theorem S4_mul {a b : PExpr} {op : BinOp} {t : Tok} (hbt : binTok op = some t)
     (hct : mulOfTok t = some op) (hFt : ∀ r, Follow 5 (t :: r)) (ha : S4 a) (hb : S5 b) :
     S4 (.bin op a b) := by
   intro rest res m hF hloop f hf
-  have hn : ntok (.bin op a b) = ntok a + 1 + ntok b := by
-    simp [ntok, renderToks, hbt]; omega
+  have hn : ntok (.bin op a b) = ntok a + 1 + ntok b := rfl
   have ht : renderToks (.bin op a b) ++ rest = renderToks a ++ (t :: (renderToks b ++ rest)) := by
     simp [renderToks, hbt]
   rw [ht]
@@ -313,7 +320,7 @@ theorem S4_mul {a b : PExpr} {op : BinOp} {t : Tok} (hbt : binTok op = some t)
 
 theorem S5_neg {e : PExpr} (h : S6 e) : S5 (.neg e) := by
   intro rest hF f hf
-  have hn : ntok (.neg e) = ntok e + 1 := by simp [ntok, renderToks]
+  have hn : ntok (.neg e) = ntok e + 1 := rfl
   have ht : renderToks (.neg e) ++ rest = .punct '!' :: (renderToks e ++ rest) := by
     simp [renderToks]
   rw [ht]
@@ -333,8 +340,7 @@ theorem Follow_rparen (k : Nat) (r : List Tok) : Follow k (.punct ')' :: r) := b
 theorem S6_method {recv arg : PExpr} {op : BinOp} (hop : isMethOp op = true)
     (hr : S6 recv) (ha : S0 arg) : S6 (.method op recv arg) := by
   intro rest res m hloop f hf
-  have hn : ntok (.method op recv arg) = ntok recv + ntok arg + 4 := by
-    simp [ntok, renderToks]; omega
+  have hn : ntok (.method op recv arg) = ntok recv + ntok arg + 4 := rfl
   have ht : renderToks (.method op recv arg) ++ rest =
       renderToks recv ++ (.dot :: methodTok op :: .punct '(' :: (renderToks arg ++ (.punct ')' :: rest))) := by
     simp [renderToks]
@@ -350,8 +356,7 @@ theorem S6_method {recv arg : PExpr} {op : BinOp} (hop : isMethOp op = true)
 
 theorem S6_length {recv : PExpr} (hr : S6 recv) : S6 (.length recv) := by
   intro rest res m hloop f hf
-  have hn : ntok (.length recv) = ntok recv + 4 := by
-    simp [ntok, renderToks]
+  have hn : ntok (.length recv) = ntok recv + 4 := rfl
   have ht : renderToks (.length recv) ++ rest =
       renderToks recv ++ (.dot :: .func "length" :: .punct '(' :: .punct ')' :: rest) := by
     simp [renderToks]
@@ -365,7 +370,7 @@ theorem S6_length {recv : PExpr} (hr : S6 recv) : S6 (.length recv) := by
 
 theorem S7_paren {e : PExpr} (h : S0 e) : S7 (.paren e) := by
   intro rest f hf
-  have hn : ntok (.paren e) = ntok e + 2 := by simp [ntok, renderToks]
+  have hn : ntok (.paren e) = ntok e + 2 := rfl
   have ht : renderToks (.paren e) ++ rest = .punct '(' :: (renderToks e ++ (.punct ')' :: rest)) := by
     simp [renderToks]
   rw [ht]
@@ -378,7 +383,8 @@ theorem S7_paren {e : PExpr} (h : S0 e) : S7 (.paren e) := by
 
 /-- One non-set term as a token (the inner `match` of `renderTermToks`). -/
 def atomToks : PTerm → List Tok
-  | .param n => [Tok.param n] | .var n => [.var n] | .int ds => [.int ds] | .str s => [.str s]
+  | .param n => [Tok.param n] | .var n => [.var n] | .int ds => [.int ds]
+  | .negInt ds => [.op "-", .int ds] | .str s => [.str s]
   | .date s => [.date s] | .bytes ds => [.hex ds] | .bool b => [.bool b] | .set _ => []
 
 theorem renderTermToks_set (elts : List PTerm) :
@@ -428,11 +434,11 @@ theorem length_le_joinToks (elts : List PTerm) (hok : ∀ t ∈ elts, AtomOK t) 
   induction elts with
   | nil => simp
   | cons t ts ih =>
-    have h1 : (atomToks t).length = 1 := by
+    have h1 : 1 ≤ (atomToks t).length := by
       have := hok t (by simp)
-      cases t <;> first | rfl | exact absurd this (by simp [AtomOK])
+      cases t <;> first | exact Nat.le_refl _ | exact Nat.le_succ _ | exact absurd this (by simp [AtomOK])
     cases ts with
-    | nil => simp [renderTermToks.joinToks, h1]
+    | nil => simpa [renderTermToks.joinToks] using h1
     | cons t' ts' =>
       have := ih (fun x hx => hok x (by simp [hx]))
       simp only [List.map, renderTermToks.joinToks, List.length_append, List.length_cons,
@@ -456,11 +462,7 @@ theorem S7_term {t : PTerm} (h : TermOK t) : S7 (.term t) := by
           .punct '[' :: (renderTermToks.joinToks (elts.map atomToks) ++ (.punct ']' :: rest)) := by
         show renderTermToks (.set elts) ++ rest = _
         rw [renderTermToks_set]; simp
-      have hn : ntok (.term (.set elts)) =
-          (renderTermToks.joinToks (elts.map atomToks)).length + 2 := by
-        show (renderTermToks (.set elts)).length = _
-        rw [renderTermToks_set]; simp
-      have hl := length_le_joinToks elts hok
+      have hn : ntok (.term (.set elts)) = elts.length + 2 := rfl
       obtain ⟨g, rfl⟩ : ∃ g, f = g + 1 := ⟨f - 1, by omega⟩
       rw [hr, parseAtom.eq_3, parseTerm.eq_1,
         parseAtomList_join elts hne hok _ (by intro r hx; simp at hx) g (by omega)]
@@ -606,19 +608,62 @@ theorem reads_of_WFx (e : PExpr) (h : WFx e) : Reads e := by
     · -- or
       exact Reads.of0 (by simp [lvl]) (S0_or ra.s0 (rb.s1 (by omega)))
 
+/-- Level 0 with an ordinary follow condition, fuel by the measure `esize` (a signed integer
+literal counts as one token). -/
+theorem parseOr_render_size (e : PExpr) (h : WFx e) (rest : List Tok) (hr : Follow 0 rest)
+    (fuel : Nat) (hf : fuel ≥ 16 * esize e + 15) :
+    parseOr fuel (renderToks e ++ rest) = some (e, rest) :=
+  (reads_of_WFx e h).s0 rest (e, rest) 1 (hr.mono (by omega)) (orLoop_stop' hr.or e) fuel
+    (by simp only [ntok]; omega)
+
+/-- The fuel measure never exceeds the number of rendered tokens. -/
+theorem esize_le_length (e : PExpr) (h : WFx e) : esize e ≤ (renderToks e).length := by
+  induction e with
+  | term t =>
+    cases t with
+    | set elts =>
+      have := length_le_joinToks elts h.2
+      show elts.length + 2 ≤ (renderTermToks (.set elts)).length
+      rw [renderTermToks_set]; simp; omega
+    | negInt ds => exact Nat.le_succ _
+    | _ => exact Nat.le_refl _
+  | paren e ih => have := ih h; simp only [esize, renderToks, List.length_append, List.length_cons, List.length_nil]; omega
+  | neg e ih => have := ih h.1; simp only [esize, renderToks, List.length_cons]; omega
+  | bin op a b iha ihb =>
+    have h1 := iha h.1
+    have h2 := ihb h.2.1
+    have h4 : lvl (.bin op a b) ≤ 4 := h.2.2.1
+    have hb : ∃ t, binTok op = some t := by
+      rw [lvl_bin] at h4
+      cases op <;> first | exact ⟨_, rfl⟩ | (simp [opLvl] at h4)
+    obtain ⟨t, ht⟩ := hb
+    simp only [esize, renderToks, ht, List.length_append, List.length_cons, List.length_nil]; omega
+  | method op recv arg ihr iha =>
+    have h1 := ihr h.2.1
+    have h2 := iha h.2.2.1
+    simp only [esize, renderToks, List.length_append, List.length_cons, List.length_nil]; omega
+  | length recv ihr =>
+    have h1 := ihr h.1
+    simp only [esize, renderToks, List.length_append, List.length_cons, List.length_nil]; omega
+
 /-- Level 0 with an ordinary follow condition: the statement used by C14. -/
 theorem parseOr_render (e : PExpr) (h : WFx e) (rest : List Tok) (hr : Follow 0 rest)
     (fuel : Nat) (hf : fuel ≥ 16 * (renderToks e).length + 15) :
     parseOr fuel (renderToks e ++ rest) = some (e, rest) :=
-  (reads_of_WFx e h).s0 rest (e, rest) 1 (hr.mono (by omega)) (orLoop_stop' hr.or e) fuel
-    (by simp only [ntok]; omega)
+  parseOr_render_size e h rest hr fuel (by have := esize_le_length e h; omega)
 
 /-! ## Atoms, and the chained comparison -/
 
 theorem termOK_of_atomOK {t : PTerm} (h : AtomOK t) : TermOK t := by
   cases t <;> first | trivial | exact absurd h id
 
-theorem length_renderTermToks_atom {t : PTerm} (h : AtomOK t) : (renderTermToks t).length = 1 := by
+/-- An atom is one token, a signed integer literal two (`-` and the digits). -/
+theorem length_renderTermToks_atom {t : PTerm} (h : AtomOK t) :
+    1 ≤ (renderTermToks t).length ∧ (renderTermToks t).length ≤ 2 := by
+  cases t <;> first | exact ⟨Nat.le_refl _, Nat.le_succ _⟩ | exact ⟨Nat.le_succ _, Nat.le_refl _⟩ | exact absurd h id
+
+/-- For the fuel every atom counts as one token. -/
+theorem esize_term_atom {t : PTerm} (h : AtomOK t) : esize (.term t) = 1 := by
   cases t <;> first | rfl | exact absurd h id
 
 theorem reads_atom {t : PTerm} (h : AtomOK t) : Reads (.term t) :=
@@ -648,12 +693,12 @@ theorem chained_cmp_rejected (a b c : PTerm) (ha : AtomOK a) (hb : AtomOK b) (_h
   obtain ⟨o1, ho1⟩ := Option.isSome_iff_exists.mp h1
   have hb1 := binTok_of_cmpOfTok ho1
   have hF2 := follow3_of_cmp h2 (renderTermToks c ++ [.punct ';'])
-  have la := length_renderTermToks_atom ha
-  have lb := length_renderTermToks_atom hb
+  have la := esize_term_atom ha
+  have lb := esize_term_atom hb
   have hrend : renderToks (.bin o1 (.term a) (.term b)) = renderTermToks a ++ op1 :: renderTermToks b := by
     simp [renderToks, hb1]
   have hcmp := S2_cmp' hb1 ho1 (follow3_of_cmp h1) ((reads_atom ha).s3 (by simp [lvl]))
-    ((reads_atom hb).s3 (by simp [lvl])) _ hF2 (f + 2) (by simp [ntok, hrend, la, lb]; omega)
+    ((reads_atom hb).s3 (by simp [lvl])) _ hF2 (f + 2) (by simp only [ntok, esize, la, lb]; omega)
   simp only [hrend, List.append_assoc, List.cons_append] at hcmp
   have hand : andStop (op2 :: (renderTermToks c ++ [.punct ';'])) := by
     rcases cmpOfTok_cases h2 with rfl | rfl | rfl | rfl | rfl <;> (intro r h; cases h)
